@@ -493,7 +493,9 @@ Proof.
   eapply Forall_impl; [|exact Wp]. intros p [A _]; exact A.
 Qed.
 
-(* guard: no submitted message is a send from the module account *)
+(* guard: no submitted message is a send from the module account.  (Real histories: also no
+   MsgDeposit with the module account as depositor — that message kind has no action in the model,
+   see the header of M_Gov.v; a history containing it is not an `op` list at all.) *)
 Definition op_no_govsend (o : op) : Prop :=
   match o with
   | OSubmit _ _ ms _ _ _ _ => Forall no_govsend_msg ms
